@@ -120,6 +120,12 @@ func propC01(run *Run, n int) {
 				if pv, err := ParseWire(outcome[3:]); err == nil && pv.K != KVoid {
 					c := cfg.Mutate(r, b, 3)
 					addC01CaseT(run, ch.o, ch.label+"+patched", pv, c, false)
+					// … and against ANOTHER document returned by Patch (typed array nodes on both sides)
+					if _, out2, _ := implDiffPatch(ch.o, b.Wire(), c.Wire()); strings.HasPrefix(out2, "ok ") && r.Chance(1, 2) {
+						if pc, err := ParseWire(out2[3:]); err == nil && pc.K != KVoid {
+							addC01CaseT(run, ch.o, ch.label+"+patched-both", pv, pc, false)
+						}
+					}
 				}
 			}
 		}
